@@ -89,6 +89,7 @@ type scriptOut struct {
 	GaveUp    string         `json:"gave_up,omitempty"`
 	Ctx       map[string]int `json:"ctx,omitempty"`     // context flavour -> traces recorded under it
 	Inconcl   []string       `json:"inconcl,omitempty"` // undecided probes
+	Reuse     string         `json:"reuse,omitempty"`   // config reuse mode of this script in this process
 	SlowCalls int            `json:"slow_calls,omitempty"`
 	Detail    []rec          `json:"detail,omitempty"`
 	Probe     map[string]any `json:"probe,omitempty"`
@@ -125,6 +126,8 @@ type procEnv struct {
 	insts   int
 	hostErr string
 
+	sharedCfg    wazero.ModuleConfig // reuse mode "process-shared-value": one untouched default config for the whole process
+	nameSeq      int
 	grace        *time.Timer
 	slowCalls    int
 	blockedCalls int
@@ -288,6 +291,10 @@ func intOf(v any) int {
 // context flavours: the context the embedder calls the guest with must not
 // matter to a default-configuration guest
 
+// reuseModes: how the default-valued ModuleConfig of an instance comes about.
+var reuseModes = []string{"fresh-per-instance", "process-shared-value-sequential", "derived-before-any-instantiation",
+	"derived-after-earlier-instantiations", "same-value-alive-at-once"}
+
 type ctxKey struct{}
 
 type ctxFlavour struct {
@@ -337,13 +344,19 @@ func (in *inst) close() {
 }
 
 func (p *procEnv) newInst(e *engineEnv, label string, second ...bool) (*inst, error) {
-	rt, guest := e.rt, e.guest
-	if len(second) > 0 && second[0] {
-		rt, guest = e.rt2, e.guest2
-	}
 	// The configuration under test: untouched default (the empty name only lets
 	// several instances coexist in one runtime).
-	mod, err := rt.InstantiateModule(p.ctx, guest, wazero.NewModuleConfig().WithName(""))
+	return p.newInstCfg(e, label, wazero.NewModuleConfig().WithName(""), len(second) > 0 && second[0])
+}
+
+// newInstCfg instantiates the guest with the given default-valued configuration
+// (how the value came about is the "config reuse" dimension, see runScript).
+func (p *procEnv) newInstCfg(e *engineEnv, label string, cfg wazero.ModuleConfig, second bool) (*inst, error) {
+	rt, guest := e.rt, e.guest
+	if second {
+		rt, guest = e.rt2, e.guest2
+	}
+	mod, err := rt.InstantiateModule(p.ctx, guest, cfg)
 	if err != nil {
 		return nil, err
 	}
@@ -908,7 +921,52 @@ func (p *procEnv) runScript(sc *scriptCase) *scriptOut {
 	if len(engines) == 2 {
 		so.Plan += "," + engines[1].name
 	}
-	so.Plan += fmt.Sprintf(" close-first-instance-before-second=%v third-instance-in-second-runtime=%v", closeFirst, secondRT)
+	// Config reuse dimension: how the (always default-valued) ModuleConfig of each
+	// instance comes about. Rotates with variant and script, so a script meets
+	// different modes in the processes whose traces are compared.
+	reuse := reuseModes[(p.variant+sc.ID/5+5)%len(reuseModes)]
+	so.Reuse = reuse
+	interleave := true
+	var base wazero.ModuleConfig
+	uniq := func() string { p.nameSeq++; return fmt.Sprintf("c18-%d", p.nameSeq) }
+	pre := map[string]wazero.ModuleConfig{}
+	switch reuse {
+	case "process-shared-value-sequential":
+		// one untouched NewModuleConfig() value for every such instance of the
+		// process, one instance at a time
+		if p.sharedCfg == nil {
+			p.sharedCfg = wazero.NewModuleConfig()
+		}
+		base, closeFirst, interleave = p.sharedCfg, true, false
+	case "same-value-alive-at-once":
+		base, closeFirst = wazero.NewModuleConfig(), false
+	case "derived-before-any-instantiation":
+		base = wazero.NewModuleConfig()
+		for _, e := range engines {
+			for _, x := range []string{"/A", "/B", "/C"} {
+				pre[e.name+x] = base.WithName(uniq())
+			}
+		}
+	case "derived-after-earlier-instantiations":
+		base = wazero.NewModuleConfig()
+	}
+	firstOfBase := true
+	cfgFor := func(label string) wazero.ModuleConfig {
+		switch reuse {
+		case "process-shared-value-sequential", "same-value-alive-at-once":
+			return base
+		case "derived-before-any-instantiation":
+			return pre[label]
+		case "derived-after-earlier-instantiations":
+			if firstOfBase {
+				firstOfBase = false
+				return base // the base itself is instantiated first (anonymous) ...
+			}
+			return base.WithName(uniq()) // ... every later config is derived from it afterwards
+		}
+		return wazero.NewModuleConfig().WithName("")
+	}
+	so.Plan += fmt.Sprintf(" close-first-instance-before-second=%v third-instance-in-second-runtime=%v config=%s", closeFirst, secondRT, reuse)
 
 	// Context dimension: interpreter/A (the reference) is called under
 	// context.Background(); the other five instances get the five other flavours,
@@ -940,7 +998,7 @@ func (p *procEnv) runScript(sc *scriptCase) *scriptOut {
 	for _, e := range engines {
 		// instance A alone; then B and C, created after A consumed its clock and
 		// random values, running the script interleaved call by call.
-		a, err := p.newInst(e, e.name+"/A")
+		a, err := p.newInstCfg(e, e.name+"/A", cfgFor(e.name+"/A"), false)
 		if err != nil {
 			cc.find("harness:instantiate", err.Error(), -1, e.name, nil, nil)
 			continue
@@ -957,24 +1015,55 @@ func (p *procEnv) runScript(sc *scriptCase) *scriptOut {
 		if closeFirst {
 			a.close()
 		}
-		b, err1 := p.newInst(e, e.name+"/B")
-		c, err2 := p.newInst(e, e.name+"/C", secondRT)
-		if err1 != nil || err2 != nil {
-			cc.find("harness:instantiate", fmt.Sprint(err1, err2), -1, e.name, nil, nil)
-			continue
-		}
-		setCtx(b)
-		setCtx(c)
 		var tb, tc []rec
-		for k := range calls {
-			if !b.exited {
-				tb = append(tb, b.run(cc, k, &calls[k]))
+		var b, c *inst
+		if interleave {
+			var err1, err2 error
+			b, err1 = p.newInstCfg(e, e.name+"/B", cfgFor(e.name+"/B"), false)
+			c, err2 = p.newInstCfg(e, e.name+"/C", cfgFor(e.name+"/C"), secondRT)
+			if err1 != nil || err2 != nil {
+				cc.find("harness:instantiate", fmt.Sprint(err1, err2), -1, e.name, nil, nil)
+				continue
 			}
-			if !c.exited {
-				tc = append(tc, c.run(cc, k, &calls[k]))
+			setCtx(b)
+			setCtx(c)
+			for k := range calls {
+				if !b.exited {
+					tb = append(tb, b.run(cc, k, &calls[k]))
+				}
+				if !c.exited {
+					tc = append(tc, c.run(cc, k, &calls[k]))
+				}
+				if b.exited && c.exited {
+					break
+				}
 			}
-			if b.exited && c.exited {
-				break
+		} else {
+			// strictly one instance at a time
+			var err1, err2 error
+			if b, err1 = p.newInstCfg(e, e.name+"/B", cfgFor(e.name+"/B"), false); err1 == nil {
+				setCtx(b)
+				for k := range calls {
+					tb = append(tb, b.run(cc, k, &calls[k]))
+					if b.exited {
+						break
+					}
+				}
+				b.close()
+			}
+			if c, err2 = p.newInstCfg(e, e.name+"/C", cfgFor(e.name+"/C"), secondRT); err2 == nil {
+				setCtx(c)
+				for k := range calls {
+					tc = append(tc, c.run(cc, k, &calls[k]))
+					if c.exited {
+						break
+					}
+				}
+				c.close()
+			}
+			if err1 != nil || err2 != nil {
+				cc.find("harness:instantiate", fmt.Sprint(err1, err2), -1, e.name, nil, nil)
+				continue
 			}
 		}
 		traces[e.name+"/B"] = tb
@@ -982,8 +1071,10 @@ func (p *procEnv) runScript(sc *scriptCase) *scriptOut {
 		if !closeFirst {
 			a.close()
 		}
-		b.close()
-		c.close()
+		if interleave {
+			b.close()
+			c.close()
+		}
 	}
 	ref = traces["interpreter/A"]
 	so.Traces = len(traces)
@@ -1024,7 +1115,9 @@ func (p *procEnv) runScript(sc *scriptCase) *scriptOut {
 			if d := firstRecDiff(&ref[i], &t[i]); d != "" {
 				// Is it the context? A fresh instance of the same engine called under
 				// context.Background() that reproduces the reference says so.
-				if fl := flavourOf[l]; fl != "background" {
+				// (Only decidable when every instance has its own fresh config; in the
+				// reuse modes the signature carries the mode instead.)
+				if fl := flavourOf[l]; fl != "background" && reuse == "fresh-per-instance" {
 					for _, e := range p.engines {
 						if strings.HasPrefix(l, e.name+"/") {
 							if x, err := p.newInst(e, l+"/recheck"); err == nil {
@@ -1042,8 +1135,11 @@ func (p *procEnv) runScript(sc *scriptCase) *scriptOut {
 						}
 					}
 				}
+				if reuse != "fresh-per-instance" && !strings.HasPrefix(dim, "contexts") {
+					dim += "[config:" + reuse + "]"
+				}
 				cc.find(fnTag(&calls[i])+":"+d+":differs-across-"+dim,
-					fmt.Sprintf("call %d %s: %s of %s (called under a %s context) differs from interpreter/A (context.Background()) in the same process", i, calls[i].Fn, d, l, flavourOf[l]),
+					fmt.Sprintf("[config reuse mode: "+reuse+"] call %d %s: %s of %s (called under a %s context) differs from interpreter/A (context.Background()) in the same process", i, calls[i].Fn, d, l, flavourOf[l]),
 					i, l+" ctx="+flavourOf[l], t[i], ref[i])
 				break
 			}
